@@ -27,6 +27,7 @@ const REQUIRED: &[&str] = &[
     "execute-member-no-auth",
     "execute-member-stranger-auth",
     "execute-member-owner-auth",
+    "execute-member-own-other-arguments-auth",
     "execute-target-fails",
     "transfer-ownership",
     "advance-ledger",
@@ -162,9 +163,9 @@ pub fn run(ctx: &Ctx, rep: &mut Report) {
                     // forwarded call
                     let is_member = members.contains(&ci);
                     let was_member = ever.contains(&ci);
-                    let auth_class = *rng.pick(&["own", "own", "own", "own", "nobody", "stranger", "owner"]);
+                    let auth_class = *rng.pick(&["own", "own", "own", "own", "nobody", "stranger", "owner", "own-other-arguments"]);
                     let auth = match auth_class {
-                        "own" => Auth::Only(vec![cand.clone()]),
+                        "own" | "own-other-arguments" => Auth::Only(vec![cand.clone()]),
                         "nobody" => Auth::Nobody,
                         "stranger" => Auth::AllBy(stranger.clone()),
                         _ => Auth::AllBy(owner.clone()),
@@ -194,6 +195,30 @@ pub fn run(ctx: &Ctx, rep: &mut Report) {
                         "execute-never-member".to_string()
                     };
                     let want = auth_class == "own" && is_member && !target_fails;
+                    // the caller's authorisation, but recorded for other arguments (same target and function)
+                    let auth = if auth_class == "own-other-arguments" {
+                        let mut other_args = args.clone();
+                        other_args.push(sv_u32(4_000_000));
+                        if nargs > 0 {
+                            other_args.remove(0);
+                        } else {
+                            // f0 takes nothing: authorise g1(x) instead
+                        }
+                        let other_fn = if nargs == 0 { "g1".to_string() } else { fname.clone() };
+                        let (oc3, c3, tg3) = (ops_c.clone(), cand.clone(), target.clone());
+                        let (_, forest) = u.record(&move |env: &Env| {
+                            let c = AxelarOperatorsClient::new(env, &oc3);
+                            let mut av: SVec<Val> = SVec::new(env);
+                            for a in &other_args {
+                                av.push_back(to_val(env, a));
+                            }
+                            flat(c.try_execute(&c3, &tg3, &Symbol::new(env, &other_fn), &av)).map(|_| ())
+                        });
+                        let h = sc_addr(&cand);
+                        Auth::Forest(forest.into_iter().filter(|(a, _)| *a == h).collect())
+                    } else {
+                        auth
+                    };
                     let (tg, fnm, a2, c2) = (target.clone(), fname.clone(), args.clone(), cand.clone());
                     let o = u.call(auth, &move |env: &Env| {
                         let c = AxelarOperatorsClient::new(env, &oc);
